@@ -15,6 +15,9 @@ func ValidateGenesis(gs GenesisState) error {
 	}
 	// validate each claim
 	for _, claim := range gs.Claims {
+		// a stored claim carries the expiration height the keeper assigned when it was
+		// accepted; only a submitted claim message must not have one
+		claim.ExpirationHeight = 0
 		if err := claim.ValidateBasic(); err != nil {
 			return err
 		}
